@@ -215,6 +215,8 @@ fn reference_creq(r: &Req, query_for_creq: &str, signed: &[String], s3: bool) ->
 }
 /// how the differential search distorts the SignedHeaders list a client signs (0: not at all). The client still signs the canonical request the
 /// specification prescribes for the list it presents: names in byte order, one line per listed name that names a header of the request.
+/// the header the reference signer puts the date text into (the differential search sometimes uses `Date`)
+static DATE_HEADER: std::sync::Mutex<&'static str> = std::sync::Mutex::new("X-Amz-Date");
 static LIST_TF: std::sync::atomic::AtomicUsize = std::sync::atomic::AtomicUsize::new(0);
 fn transform_signed(r: &Req, signed: &mut Vec<String>) {
     let tf = LIST_TF.load(std::sync::atomic::Ordering::SeqCst);
@@ -239,7 +241,7 @@ fn sign_header(r: &mut Req, ts: &str, region: &str, service: &str, s3: bool, bod
 /// `date_text` is what the X-Amz-Date header carries; `ts` is the compact UTC rendering of the same instant (what a signer puts in the
 /// string to sign); `only`: sign just these (lower-case) header names instead of all
 fn sign_header_ext(r: &mut Req, date_text: &str, ts: &str, region: &str, service: &str, s3: bool, body_hash_of: &[u8], only: Option<&[&str]>) -> Option<()> {
-    r.headers.push(("X-Amz-Date".into(), date_text.into()));
+    r.headers.push((DATE_HEADER.lock().unwrap().to_string(), date_text.into()));
     let mut signed: Vec<String> = r.headers.iter().map(|h| h.0.to_lowercase()).collect();
     if let Some(only) = only {
         signed.retain(|h| only.contains(&h.as_str()) || h == "host" || h == "x-amz-date");
@@ -1053,6 +1055,13 @@ fn model_provider(r: &Req, c: &Cfg) -> (bool, Option<Vec<u8>>) {
 fn xorshift(x: &mut u64) -> u64 { *x ^= *x << 13; *x ^= *x >> 7; *x ^= *x << 17; *x }
 /// Randomised differential test of sigv4_validate_request against the reference model. BOUNDED: `budget` requests from the seed.
 fn search_differential(seed: u64, budget: usize, want: Option<&str>) -> (usize, Option<Value>) {
+    search_differential_ext(seed, budget, budget / 4, want)
+}
+/// `budget` requests of the first phase, then `extra` requests of a second phase that adds further input features (an if-in-request header that is
+/// present but empty, repeated X-Amz-Signature parameters under the header carrier, unsigned proxy headers, the remaining UTF-8 charset label, a `Date`
+/// header - ISO or HTTP-date - instead of X-Amz-Date). The second phase draws its extra choices only after the first has ended, so the first `budget`
+/// requests of a seed are the same whether or not a second phase follows.
+fn search_differential_ext(seed: u64, budget: usize, extra_budget: usize, want: Option<&str>) -> (usize, Option<Value>) {
     let mut x: u64 = 0x9E3779B97F4A7C15 ^ seed.wrapping_mul(0xD1B54A32D192ED03) | 1;
     let pick = |x: &mut u64, n: usize| (xorshift(x) % n as u64) as usize;
     let paths = ["/", "/a/b", "/a%20b/c", "/x/./y/../z", "//p//q/", "/%7Euser/-_.", "/a%2fb", "/a/b/", "/..", "/a/%zz", "/%E4%B8%AD/%e4%b8%ad", "/a;b=c/d@e", "/./", "/a/../../b", "/%2E%2e/x", "/a%25b",
@@ -1077,8 +1086,9 @@ fn search_differential(seed: u64, budget: usize, want: Option<&str>) -> (usize, 
     let base_now = Utc.with_ymd_and_hms(2015, 8, 30, 12, 36, 0).unwrap();
     let mut n = 0usize;
     install_logger();
-    while n < budget {
+    while n < budget + extra_budget {
         n += 1;
+        let p2 = n > budget;
         // server configuration and what the client signs for: mostly the same region/service; sometimes another region (refusal), sometimes an
         // empty region or service on both sides (degenerate but legal scope terms)
         let (cfg_region, cfg_service, signer_region, signer_service) = match pick(&mut x, 12) { 0 => ("eu-west-1", "service", "us-east-1", "service"), 1 => ("", "service", "", "service"), 2 => ("us-east-1", "", "us-east-1", ""),
@@ -1087,6 +1097,9 @@ fn search_differential(seed: u64, budget: usize, want: Option<&str>) -> (usize, 
             s3: pick(&mut x, 3) == 0, fold: pick(&mut x, 2) == 0,
             always: [vec![], vec![], vec!["X-Amz-Target"], vec!["content-type"]][pick(&mut x, 4)].clone(), ifreq: [vec![], vec!["ETag"], vec!["x-custom"]][pick(&mut x, 3)].clone(),
             prefixes: [vec![], vec![], vec!["x-amz-meta-"], vec!["X-Amz-"]][pick(&mut x, 4)].clone() };
+        let mut cfg = cfg;
+        if p2 && pick(&mut x, 3) == 0 { cfg.ifreq = [vec!["x-foo"], vec!["X-Bar"], vec!["x-soup"]][pick(&mut x, 3)].clone(); }
+        let cfg = cfg;
         let mut r = Req { method: ["GET", "POST", "PUT", "GET", "POST", "DELETE", "patch", "Get", "PROPFIND"][pick(&mut x, 9)], path: paths[pick(&mut x, paths.len())].into(), query: queries[pick(&mut x, queries.len())].into(),
             headers: vec![("Host".into(), ["example.amazonaws.com", "example.amazonaws.com", "example.amazonaws.com", "example.amazonaws.com", "example.amazonaws.com:443", "example.amazonaws.com:80", "EXAMPLE.amazonaws.com:8443", "[::1]:443"][pick(&mut x, 8)].into())], body: vec![] };
         if pick(&mut x, 3) == 0 {
@@ -1108,8 +1121,23 @@ fn search_differential(seed: u64, budget: usize, want: Option<&str>) -> (usize, 
             r.headers.push((["X-Amz-Meta-Soup", "x-soup", "X-Custom"][pick(&mut x, 3)].to_string(), v));
         }
         if pick(&mut x, 2) == 0 { r.headers.push(("Content-Type".into(), ctypes[pick(&mut x, ctypes.len())].into())); r.body = bodies[pick(&mut x, bodies.len())].to_vec(); }
+        if p2 {
+            if pick(&mut x, 4) == 0 { r.query = ["a=1&X-Amz-Signature=s1&X-Amz-Signature=s2&b=2", "X-Amz-Signature=&a=1", "X-Amz-Signature=s1&x-amz-signature=s2", "b=2&X-Amz-Signature=zz&a=1&X-Amz-Signature=zz"][pick(&mut x, 4)].into(); }
+            if pick(&mut x, 4) == 0 { for (k, v) in [&[("x-foo", "")][..], &[("X-Bar", ""), ("x-bar", "")][..], &[("x-soup", " ")][..], &[("x-foo", ""), ("ETag", "")][..]][pick(&mut x, 4)] { r.headers.push((k.to_string(), v.to_string())); } }
+            if pick(&mut x, 4) == 0 {
+                r.headers.retain(|h| h.0.to_lowercase() != "content-type");
+                r.headers.push(("Content-Type".into(), ["application/x-www-form-urlencoded; charset=unicode-1-1-utf-8", "application/x-www-form-urlencoded; charset=UNICODE-1-1-UTF-8 ", "application/x-www-form-urlencoded;charset=utf-8;charset=klingon",
+                    "application/x-www-form-urlencoded; charset=Unicode-1-1-UTF-8; x=y", "application/x-www-form-urlencoded; charset=klingon; charset=utf-8"][pick(&mut x, 5)].into()));
+                r.body = bodies[pick(&mut x, bodies.len())].to_vec();
+            }
+        }
         // sign with the reference signer as a client would: over the request the model says the server will canonicalise
         let date_text = dates[pick(&mut x, dates.len())];
+        // second phase: sometimes the date travels in a `Date` header (ISO or HTTP-date text) and there is no X-Amz-Date
+        let (date_header, date_text) = if p2 && pick(&mut x, 4) == 0 {
+            ("Date", if pick(&mut x, 2) == 0 { date_text } else { ["Sun, 30 Aug 2015 12:36:00 GMT", "30 Aug 2015 14:36:00 +0200", "Sun, 30 Aug 2015 08:36:00 EDT", "Sun, 30 Aug 2015 12:36:00 +0000"][pick(&mut x, 4)] })
+        } else { ("X-Amz-Date", date_text) };
+        *DATE_HEADER.lock().unwrap() = date_header;
         let carrier_header = pick(&mut x, 3) != 0;
         let folds_for_signer = { // does the model fold this request? then the client signs the merged query and an empty body
             let mut probe = Req { method: r.method, path: "/".into(), query: "".into(), headers: r.headers.clone(), body: r.body.clone() };
@@ -1125,8 +1153,9 @@ fn search_differential(seed: u64, budget: usize, want: Option<&str>) -> (usize, 
             let compact = "20150830T123600Z";
             LIST_TF.store(if pick(&mut x, 6) == 0 { 1 + pick(&mut x, 5) } else { 0 }, std::sync::atomic::Ordering::SeqCst);
             let ok = if carrier_header { let bh = view.body.clone(); sign_header_ext(&mut view, date_text, compact, signer_region, signer_service, cfg.s3, &bh, None).is_some() }
-                     else { view.headers.push(("X-Amz-Date".into(), date_text.into())); sign_query(&mut view, compact, signer_region, signer_service, cfg.s3).is_some() };
+                     else { view.headers.push((date_header.into(), date_text.into())); sign_query(&mut view, compact, signer_region, signer_service, cfg.s3).is_some() };
             LIST_TF.store(0, std::sync::atomic::Ordering::SeqCst);
+            *DATE_HEADER.lock().unwrap() = "X-Amz-Date";
             if ok {
                 r.headers = view.headers.clone();
                 if !carrier_header {
@@ -1139,8 +1168,18 @@ fn search_differential(seed: u64, budget: usize, want: Option<&str>) -> (usize, 
         };
         if !signed_ok {
             // unsignable (bad path/query for the reference signer): still a useful refusal case with some carrier attached
-            r.headers.push(("X-Amz-Date".into(), date_text.into()));
+            r.headers.push((date_header.into(), date_text.into()));
             r.headers.push(("Authorization".into(), format!("AWS4-HMAC-SHA256 Credential={}/20150830/us-east-1/service/aws4_request, SignedHeaders=host;x-amz-date, Signature={}", AKID, "0".repeat(64))));
+        }
+        if p2 && pick(&mut x, 4) == 0 {
+            let (k, v) = [("X-Forwarded-Host", "other.example.com"), ("X-Forwarded-For", "10.0.0.1"), ("X-Forwarded-Proto", "http"), ("Forwarded", "host=other.example.com"), ("Via", "1.1 proxy"), ("X-Real-IP", "10.0.0.1"),
+                          ("X-Original-Host", "other.example.com"), ("X-HTTP-Method-Override", "DELETE")][pick(&mut x, 8)];
+            r.headers.push((k.into(), v.into()));
+        }
+        if p2 && pick(&mut x, 4) == 0 {
+            // an unsigned header that is present but carries an empty (or blank) value
+            let (k, v) = [("x-foo", ""), ("X-Bar", ""), ("ETag", ""), ("x-custom", ""), ("X-Custom", " "), ("x-soup", "")][pick(&mut x, 6)];
+            r.headers.push((k.into(), v.into()));
         }
         // post-signing mutations (0-2)
         for _ in 0..pick(&mut x, 3) {
@@ -2117,7 +2156,7 @@ fn main() {
             let found: Vec<Value> = rs.iter().filter_map(|r| r.1 .1.clone().map(|d| json!({"search": r.0, "disagreement": d}))).collect();
             json!({"ok": true, "found": !found.is_empty(), "cases": cases, "searches": rs.iter().map(|r| json!({"name": r.0, "cases": r.1.0})).collect::<Vec<_>>(), "disagreements": found,
                    "bound": match pid {
-                       "C17" => "debug_display_leaks: Debug/Display renderings of the five key types and of GetSigningKeyResponse searched for the secret and the derived keys (hex, decimal); differential_leak_scan: BOUNDED, 50 000 pseudo-random requests, the error text and every debug-level log record of each refusal searched for the signature the reference model computed, the signing key and the secret",
+                       "C17" => "debug_display_leaks: Debug/Display renderings of the five key types, of GetSigningKeyResponse and of the KeyTooLongError for one over-long secret (directly, and as the error / Debug form / debug-level log records of sigv4_validate_request when the provider fails with it) searched for the secret and the derived keys (raw, hex, base64, decimal); differential_leak_scan: BOUNDED, 50 000 pseudo-random requests, the error text and every debug-level log record of each refusal searched for the signature the reference model computed, the signing key and the secret",
                        "C01" | "C02" | "C13" => "differential: BOUNDED, 50 000 pseudo-random reference-signed and mutated requests (seed VERIF_SEED) through sigv4_validate_request against the reference model of the whole validation; it checks the assumed contracts of the dependencies as much as the crate",
                        "C16" => "calendar_exhaustive: COMPLETE by native execution over every (y, m, d) the pattern admits (0000-9999 x 01-12 x 01-31) against chrono; regex_transcription: BOUNDED, 200 000 structured and mutated strings against the regex crate on the repository's exact pattern text",
                        _ => "fixed lists of Content-Type spellings / body lengths / requirement-set constructions: the COMPILED get_content_type_and_charset, trim_ascii, IntoRequestBytes impls and VecSignedHeaderRequirements mutators against the same specs their extracted text is verified against" }})
@@ -2130,6 +2169,14 @@ fn main() {
             json!({"ok": true, "found": found.is_some(), "cases": cases, "searches": [{"name": "differential", "cases": cases}], "verdict_histogram": hist,
                    "disagreements": found.map(|d| vec![json!({"search": "differential", "disagreement": d})]).unwrap_or_default(),
                    "bound": format!("{} pseudo-random signed / mutated requests from seed {} against the reference model of the whole validation", budget, seed)})
+        }
+        Some("differential2") => {
+            let seed: u64 = args.get(2).and_then(|s| s.parse().ok()).unwrap_or(0);
+            let n: usize = args.get(3).and_then(|s| s.parse().ok()).unwrap_or(20000);
+            let (cases, found) = search_differential_ext(seed, 0, n, None);
+            let hist: Vec<Value> = DIFF_HIST.lock().unwrap().iter().map(|e| json!({"model_verdict": e.0, "requests": e.1})).collect();
+            json!({"ok": true, "found": found.is_some(), "cases": cases, "verdict_histogram": hist, "disagreements": found.map(|d| vec![json!({"search": "differential (second phase)", "disagreement": d})]).unwrap_or_default(),
+                   "bound": format!("{} second-phase requests from seed {}", n, seed)})
         }
         Some("rerun") => {
             // re-run = run the searches again and report whether the recorded disagreement is still present
